@@ -88,6 +88,7 @@ func runChild(o childOpts) childOut {
 			out.Err = ln
 		}
 	}
+	applyRaces(&out)
 	return out
 }
 
